@@ -138,7 +138,7 @@ CLAIMED = {
         technique='Coq proof: Hoare logic over the generator monad (Layer A invariants for every configuration and decision script), machine-level method contracts by induction on the call depth and whole-image theorems for all five variants (Layer B), non-vacuity witnesses; + byte-exact generator correspondence + judgement of implementation images on the extracted reference machine (incl. ImageSem.count_method / need_method vs decoded image vs executed steps)',
     ),
     'C09': dict(
-        text='Machine-checked (Coq): no method instruction of a RIMI image stores or reloads ra through sp; the RIMI method contract (both variants): pushes / pops through t3 LIFO-matched, one slot per live call-making method, inside [t3 - ss_need, t3) from the call DAG, t3 restored; whole image (RIMI-SS and RIMI-full, over the emitted files): for call chains within the emitted shadow stack the run ends with t3 at its entry value, no shadow fault; the return of a call-making method goes to the content of its shadow slot whatever the main stack holds (every state). Partial: corruption independence as a two-run statement is judged (random overwrites of JIT frames with trace comparison).',
+        text='Machine-checked (Coq): no method instruction of a RIMI image stores or reloads ra through sp; the RIMI method contract (both variants): pushes / pops through t3 LIFO-matched, one slot per live call-making method, inside [t3 - ss_need, t3) from the call DAG, t3 restored; whole image (RIMI-SS and RIMI-full, over the emitted files): for call chains within the emitted shadow stack the run ends with t3 at its entry value, no shadow fault; the return of a call-making method goes to the content of its shadow slot whatever the main stack holds (every state). C09_frame_corruption_keeps_control_flow_partial: for every call-making method and every position of its own body, arbitrarily overwriting its main-stack frame at that moment changes neither the number of steps nor the target of the rest of its execution (two-run theorem, with a concrete witness). Partial: corruption while a callee of the frame runs, and the effect of a corrupted s0 on the caller, are judged (random overwrites of JIT frames with trace comparison).',
         design='4 C09',
         note="Trusted: Coq kernel (vm_compute), no axioms (Print Assumptions: closed; coqchk -o: Axioms <none>); gen_tables.py (fragments and tables dumped from /repo at run time); extraction (ExtrOcamlBasic/ExtrOcamlString); Machine.v/Isa.v hand-written reference semantics and ImageSem.Init hand-written entry conditions; Generator.v/Builder.v mirror the Python generators and are tied byte-for-byte by the generator correspondence over decision scripts (ScriptRandom) on every run. The whole-image theorems are about the model's image; side conditions: PIC switch offsets encodable (F6) and < 2047 cases, image < 2 GiB, data register not t1 with trampolines (DESIGN 6.2), RIMI call chains within the emitted shadow stack. Clauses named _partial / _statement in coq/Properties are decided by the judges on implementation images executed on the extracted reference machine (a test, not a proof).",
         technique='Coq proof: Hoare logic over the generator monad (Layer A invariants for every configuration and decision script), machine-level method contracts by induction on the call depth and whole-image theorems for all five variants (Layer B), non-vacuity witnesses; + byte-exact generator correspondence + judgement of implementation images on the extracted reference machine (incl. ImageSem.count_method / need_method vs decoded image vs executed steps)',
